@@ -462,6 +462,21 @@ func (p *progGen) node(b *strings.Builder, depth int) {
 		}
 	case "ifchanged":
 		p.use("ifchanged")
+		if p.g.Draw(4) == 0 && !p.inMacro {
+			// the usual place of ifchanged: inside a loop over values that repeat, here wrapped in
+			// a tag that captures its body (spaceless / filter) before handing it on
+			p.use("for")
+			q := p.id("it")
+			open, shut := "{% spaceless %}", "{% endspaceless %}"
+			if p.g.Draw(2) == 0 {
+				p.use("filter")
+				open, shut = "{% filter upper %}", "{% endfilter %}"
+			} else {
+				p.use("spaceless")
+			}
+			fmt.Fprintf(b, "{%% for %s in st.Tags %%}%s{%% ifchanged %%}<i> {{ %s }} </i>{%% endifchanged %%}%s,{%% endfor %%}", q, open, q, shut)
+			return
+		}
 		if p.g.Draw(2) == 0 {
 			b.WriteString("{% ifchanged %}")
 			p.body(b, depth+1)
